@@ -61,13 +61,15 @@ def catalogue_items(pt, rng, shard, nshards, versions=range(2, 11)):
 
 def recipe_items(pt, rng, n):
     from . import build
-    from .checks import c02, c03
+    from .checks import c01, c02, c03
     for i in range(n):
         vgen = rng.choice([2, 3, 4, 5, 6, 7, 8, 9, 10])
         mode = "sig" if rng.random() < .25 else "app"
         r = rng.random()
         try:
-            if r < .6:
+            if r < .08:
+                recipe, mode = c01.first_statement_family(rng), "app"
+            elif r < .6:
                 recipe = recipes.Gen(rng, version=vgen, mode=mode, min_subs=rng.choice([0, 0, 1]), call_bias=.04).program()
             elif r < .8 and mode == "app":
                 recipe = c02.mutual_family(rng)
